@@ -219,8 +219,41 @@ def parse_body(body):
             # case / default / } end this block without consuming
             break
         return ('assign', assigns, False)
+    # guarded early returns ahead of the table:  if (<integer condition on the indices>) return <expr>;
+    guards = []
+    while True:
+        g = GUARD.match(body, pos)
+        if not g:
+            break
+        guards.append((g.group(1).strip(), g.group(2).strip()))
+        pos = g.end()
     node = block()
+    if guards:
+        return ('guard', guards, node)
     return node
+
+
+GUARD = re.compile(r'\s*if\s*\(((?:[^()]|\((?:[^()]|\([^()]*\))*\))*)\)\s*return\s*([^;]*);')
+
+
+def switch_vars(node):
+    out = []
+    while node[0] == 'switch':
+        out.append(node[1])
+        node = next(iter(node[2].values()))
+    return out
+
+
+def guard_holds(cond, env):
+    """evaluate a C integer condition (indices only) for concrete index values"""
+    if not re.fullmatch(r'[\w\s()<>=!&|%+\-*]*', cond):
+        raise CParseError('unsupported guard condition %r' % cond)
+    py = cond.replace('&&', ' and ').replace('||', ' or ')
+    py = re.sub(r'!(?!=)', ' not ', py)
+    names = set(re.findall(r'[A-Za-z_]\w*', py)) - {'and', 'or', 'not'}
+    if not names <= set(env):
+        raise CParseError('guard condition %r uses something other than the table indices %s' % (cond, sorted(env)))
+    return bool(eval(py, {'__builtins__': {}}, dict(env)))
 
 
 class CTables:
@@ -244,6 +277,12 @@ class CTables:
         """polynomial returned by `name` for the given integer switch arguments (in switch nesting order)"""
         fname, ret, args, node = self.funcs[name]
         idx = list(idx)
+        if node[0] == 'guard':
+            env = dict(zip(switch_vars(node[2]), idx))
+            for cond, txt in node[1]:
+                if guard_holds(cond, env):
+                    return parse_expr(txt, self.literals) if txt else None
+            node = node[2]
         while node[0] == 'switch':
             k = idx.pop(0)
             cases = node[2]
@@ -263,6 +302,8 @@ class CTables:
         """{(array, k): Poly} assigned by `name` (after walking the switches with idx)"""
         fname, ret, args, node = self.funcs[name]
         idx = list(idx)
+        if node[0] == 'guard':
+            raise CParseError('vector(): guarded early return ahead of an assignment table in %s' % name)
         while node[0] == 'switch':
             k = idx.pop(0)
             cases = node[2]
@@ -278,6 +319,8 @@ class CTables:
 
     def switch_keys(self, name):
         node = self.funcs[name][3]
+        if node[0] == 'guard':
+            node = node[2]
         return sorted(k for k in node[2] if k != 'default') if node[0] == 'switch' else []
 
 
